@@ -49,6 +49,7 @@ typedef struct {
     int      pick_order;             /* 0 fifo, 1 lifo, 2 random */
     int      tw_descendants;         /* taskwait may run non-child descendants */
     uint32_t p_preempt;              /* /2^32 per instrumented access (preempt build only) */
+    uint32_t p_sb;                   /* /65536: a relaxed/release atomic store goes to the virtual thread's store buffer first (x86-TSO model, preempt build) */
     uint32_t p_shared;               /* /65536 per access to a location that >= 2 virtual threads have touched (preempt build) */
     uint32_t p_burst;                /* /65536: a *_BEGIN event of a task body schedules a preemption within the next burst_len accesses */
     uint32_t burst_len;
@@ -69,7 +70,7 @@ extern sim_world W;
 
 /* ---------- decision trace */
 typedef struct { uint8_t kind; uint16_t nalt; uint16_t choice; } sim_decision;
-enum { DK_SWITCH=1, DK_DEFER=2, DK_PICK=3, DK_TEAMSIZE=4, DK_HOOKYIELD=5, DK_STALL=6, DK_PREEMPT=7 };
+enum { DK_SWITCH=1, DK_DEFER=2, DK_PICK=3, DK_TEAMSIZE=4, DK_HOOKYIELD=5, DK_STALL=6, DK_PREEMPT=7, DK_SBUF=8, DK_SBDRAIN=9 };
 extern sim_decision *g_trace; extern size_t g_trace_n;
 extern uint32_t *g_dec; extern size_t g_dec_n;      /* explicit decisions (input) */
 extern uint64_t *g_preempt_at; extern size_t g_preempt_n; /* explicit preemption positions (access counter values) */
@@ -85,7 +86,8 @@ void simomp_preempt_point(void);          /* called from tsan callbacks */
 void simomp_preempt_slow(void);
 void simomp_preempt_now(void);             /* preempt at this very access (conflict-directed) */
 extern int g_cur_fiber_id;
-void simomp_preempt_soon(void);            /* called from hook events: bias preemptions into freshly started task bodies */
+void simomp_preempt_soon(void);
+void simomp_preempt_after_buffered_store(void);            /* called from hook events: bias preemptions into freshly started task bodies */
 extern uint64_t g_next_preempt;
 int  simomp_cur_fiber(void);              /* dense fiber id */
 int  simomp_team_size(void);
@@ -109,6 +111,7 @@ enum {
     PR_FS_READS, PR_FS_SHORT_READS, PR_FS_READ_FAULTS, PR_FS_OPEN_FAULTS, PR_FS_STAT_FAULTS, PR_FS_WRITES,
     PR_FS_WRITE_FAULTS,
     PR_CLOCK_READS, PR_ALLOCS, PR_ALLOC_FAILS, PR_JUNK_BYTES,
+    PR_SB_BUFFERED, PR_SB_STALE_READS,   /* atomic stores held in a store buffer; atomic loads that read memory while another virtual thread held a newer value */
     PR_UNUSUAL_TAKEN,          /* cooperative unusual-branch points that took the unusual side */
     PR_C10_ROWS_CHECKED,       /* nodes whose snapshot was compared with the rows finally handed out */
     PR__N
